@@ -163,6 +163,8 @@ pub struct Profile {
     pub w_z3: u64,
     /// Z4: honest body behind a ground salt (extreme hash-to-point stream)
     pub w_z4: u64,
+    /// Z5: a public key computed from the message hash so that s1 = c - s2*h is whatever the attacker wants
+    pub w_z5: u64,
     /// probability (in 1/256) that a delivery is clean (control group)
     pub clean: u64,
 }
@@ -175,6 +177,7 @@ pub const PROFILE_C03: Profile = Profile {
     w_z2: 22,
     w_z3: 4,
     w_z4: 1,
+    w_z5: 3,
     clean: 10,
 };
 
@@ -186,12 +189,13 @@ pub const PROFILE_C06: Profile = Profile {
     w_z2: 0,
     w_z3: 18,
     w_z4: 0,
+    w_z5: 0,
     clean: 24,
 };
 
 /// Generate one delivery.
 pub fn draw(rng: &mut Prng, pools: &Pools, mix: &FaultMix, prof: &Profile) -> Delivery {
-    let total = prof.w_pk + prof.w_sk + prof.w_sig + prof.w_verify + prof.w_z2 + prof.w_z3 + prof.w_z4;
+    let total = prof.w_pk + prof.w_sk + prof.w_sig + prof.w_verify + prof.w_z2 + prof.w_z3 + prof.w_z4 + prof.w_z5;
     let mut r = rng.below(total);
     let src_n = if rng.chance(1, 3) { 1024 } else { 512 };
     let p: Params = codec::params(src_n);
@@ -227,6 +231,11 @@ pub fn draw(rng: &mut Prng, pools: &Pools, mix: &FaultMix, prof: &Profile) -> De
         let o = pools.pick_pk(rng, src_n);
         let mut b = pristine.clone();
         let faults = damage(rng, &mut b, 1, &[&o]);
+        // N8h: the other variant's bytes, but with the header byte the receiving variant expects
+        let relabelled = misdeliver && !b.is_empty() && rng.chance(1, 3);
+        if relabelled {
+            b[0] = codec::params(recv_n).logn;
+        }
         // sometimes hand the bytes to the wrong decoder type
         let target = if rng.chance(1, 20) { *rng.pick(&[Target::Sk, Target::Sig]) } else { Target::Pk };
         return Delivery {
@@ -237,8 +246,8 @@ pub fn draw(rng: &mut Prng, pools: &Pools, mix: &FaultMix, prof: &Profile) -> De
             pk: vec![],
             pristine: Some(pristine),
             faults,
-            origin: label(clean, misdeliver),
-            detail: format!("pk{} -> {:?}{}", src_n, target, recv_n),
+            origin: if relabelled { format!("{}+relabelled", label(clean, misdeliver)) } else { label(clean, misdeliver) },
+            detail: format!("pk{} -> {:?}{}{}", src_n, target, recv_n, if relabelled { " (header re-labelled for the receiving variant)" } else { "" }),
         };
     }
     r -= prof.w_pk;
@@ -247,6 +256,10 @@ pub fn draw(rng: &mut Prng, pools: &Pools, mix: &FaultMix, prof: &Profile) -> De
         let o = pools.pick_sk(rng, src_n);
         let mut b = pristine.clone();
         let faults = damage(rng, &mut b, 1, &[&o]);
+        let relabelled = misdeliver && !b.is_empty() && rng.chance(1, 3);
+        if relabelled {
+            b[0] = 0x50 | codec::params(recv_n).logn;
+        }
         let target = if rng.chance(1, 20) { *rng.pick(&[Target::Pk, Target::Sig]) } else { Target::Sk };
         return Delivery {
             n: recv_n,
@@ -256,8 +269,8 @@ pub fn draw(rng: &mut Prng, pools: &Pools, mix: &FaultMix, prof: &Profile) -> De
             pk: vec![],
             pristine: Some(pristine),
             faults,
-            origin: label(clean, misdeliver),
-            detail: format!("sk{} -> {:?}{}", src_n, target, recv_n),
+            origin: if relabelled { format!("{}+relabelled", label(clean, misdeliver)) } else { label(clean, misdeliver) },
+            detail: format!("sk{} -> {:?}{}{}", src_n, target, recv_n, if relabelled { " (header re-labelled for the receiving variant)" } else { "" }),
         };
     }
     r -= prof.w_sk;
@@ -266,6 +279,10 @@ pub fn draw(rng: &mut Prng, pools: &Pools, mix: &FaultMix, prof: &Profile) -> De
         let (_m2, o, _pk2) = pools.pick_sig(rng, src_n);
         let mut b = pristine.clone();
         let faults = damage(rng, &mut b, 41, &[&o]);
+        let relabelled = misdeliver && !b.is_empty() && rng.chance(1, 3);
+        if relabelled {
+            b[0] = codec::sig_header(codec::params(recv_n));
+        }
         let target = if rng.chance(1, 20) { *rng.pick(&[Target::Pk, Target::Sk]) } else { Target::Sig };
         return Delivery {
             n: recv_n,
@@ -275,8 +292,8 @@ pub fn draw(rng: &mut Prng, pools: &Pools, mix: &FaultMix, prof: &Profile) -> De
             pk: vec![],
             pristine: Some(pristine),
             faults,
-            origin: label(clean, misdeliver),
-            detail: format!("sig{} -> {:?}{}", src_n, target, recv_n),
+            origin: if relabelled { format!("{}+relabelled", label(clean, misdeliver)) } else { label(clean, misdeliver) },
+            detail: format!("sig{} -> {:?}{}{}", src_n, target, recv_n, if relabelled { " (header re-labelled for the receiving variant)" } else { "" }),
         };
     }
     r -= prof.w_sig;
@@ -345,6 +362,21 @@ pub fn draw(rng: &mut Prng, pools: &Pools, mix: &FaultMix, prof: &Profile) -> De
             faults: vec![],
             origin: "Z4-salt-grind".to_string(),
             detail: format!("{} rejected samples in the hash-to-point stream", rej),
+        };
+    }
+    r = r.saturating_sub(prof.w_z4);
+    if prof.w_z5 > 0 && r < prof.w_z5 {
+        let c = byz::chosen_s1_triple(rng, p);
+        return Delivery {
+            n: src_n,
+            target: Target::Verify,
+            bytes: c.sig,
+            msg: c.msg,
+            pk: c.pk,
+            pristine: None,
+            faults: vec![],
+            origin: "Z5-chosen-s1".to_string(),
+            detail: c.note,
         };
     }
     // Z3
